@@ -71,7 +71,7 @@ func decodeDataSegment(r *bytes.Reader, enabledFeatures api.CoreFeatures, ret *w
 		return
 	}
 
-	ret.Init = make([]byte, vs)
+	ret.Init = make([]byte, boundedSize(r, uint64(vs)))
 	if _, err = io.ReadFull(r, ret.Init); err != nil {
 		err = fmt.Errorf("read bytes for init: %v", err)
 	}
